@@ -356,6 +356,31 @@ func (r *runner) runSeq(lines []string) (fail *seqFail, w *world, err error) {
 				return mkfail("correspondence", i, "root go=%s lean=%s", g, m), w, nil
 			}
 			r.dist("root-compared")
+			// the Lean definition of the standard construction (Spec.lean: specRoot), fed with the oracle's content
+			if r.drv != nil {
+				hc := w.hashedContent()
+				ks := make([]string, 0, len(hc))
+				for k := range hc {
+					ks = append(ks, k)
+				}
+				sort.Strings(ks)
+				parts := make([]string, 0, len(ks))
+				for j := len(ks) - 1; j >= 0; j-- { // any order must do: the construction is a function of the map
+					parts = append(parts, hx([]byte(ks[j]))+":"+hx(hc[ks[j]]))
+				}
+				ps := "-"
+				if len(parts) > 0 {
+					ps = strings.Join(parts, ";")
+				}
+				m, e := r.ask("SR " + ps)
+				if e != nil {
+					return nil, w, e
+				}
+				if m != g {
+					return mkfail("correspondence", i, "Lean specRoot of the surviving content = %s, Hash() = %s", m, g), w, nil
+				}
+				r.dist("specroot-compared")
+			}
 		case "I", "IS":
 			var start []byte
 			have := f[0] == "IS"
